@@ -3,8 +3,8 @@ label scheme, so every case is a small JSON-able dict and can be replayed."""
 import random, itertools, math
 import networkx as nx
 
-LABEL_SCHEMES = ['int', 'perm', 'neg', 'str', 'tuple', 'mixed', 'offset', 'nested']
-CONTAINER_LIKE = ('tuple', 'mixed', 'nested')      # schemes whose labels are themselves iterables
+LABEL_SCHEMES = ['int', 'perm', 'neg', 'str', 'tuple', 'mixed', 'offset', 'nested', 'fset']
+CONTAINER_LIKE = ('tuple', 'mixed', 'nested', 'fset')      # schemes whose labels are themselves iterables
 
 
 def label_fn(scheme, n, salt=0):
@@ -37,6 +37,10 @@ def label_fn(scheme, n, salt=0):
                 return (i, 'x')
             return frozenset([i, -i - 1])
         return f
+    if scheme == 'fset':
+        # disjoint frozensets (the node labels of nx.quotient_graph): hashable, iterable, and only partially ordered - `a < b`, `min(a, b)`
+        # raise nothing and mean nothing
+        return lambda i: frozenset([2 * i, 2 * i + 1])
     if scheme == 'nested':
         # labels that are iterables of other labels (a household node (0, 1) next to individuals 0 and 1, 'ab' next to 'a' and 'b') and
         # falsy labels (0, '', (), frozenset()).  The library documents: if something is a node, it is treated as that single node
